@@ -238,7 +238,7 @@ def _child(fn, arg, conn):
         conn.close()
 
 
-def run_tasks(fn, args, jobs, task_timeout):
+def run_tasks(fn, args, jobs, task_timeout, _retry=True):
     """run fn(arg) for every arg in its own process, at most `jobs` at a time, each under a hard wall-clock limit.
     A worker that dies (solver crash, OOM kill) or overruns yields an error record instead of hanging the check."""
     ctx = mp.get_context("fork")
@@ -264,6 +264,13 @@ def run_tasks(fn, args, jobs, task_timeout):
                     results[i] = None
                 done = True
             elif not pr.is_alive():
+                # the worker may have sent its result and exited between the poll above and this test: look again before
+                # declaring it dead (this race produced a spurious "worker process died (exit code 0)" under load)
+                if pc.poll(0.5):
+                    try:
+                        results[i] = pc.recv()
+                    except EOFError:
+                        results[i] = None
                 done = True
             elif time.time() - t0 > task_timeout:
                 pr.kill()
@@ -276,6 +283,12 @@ def run_tasks(fn, args, jobs, task_timeout):
                     results[i] = _err_record(a, f"worker process died (exit code {pr.exitcode})")
                 pc.close()
                 del running[i]
+    if _retry:
+        # a worker that vanished without a result (killed by the OS, lost pipe) is run once more before it is reported
+        again = [i for i, r in enumerate(results) if r and str(r.get("error") or "").startswith("worker process died")]
+        if again:
+            for i, r in zip(again, run_tasks(fn, [args[i] for i in again], max(1, jobs // 2), task_timeout, _retry=False)):
+                results[i] = r
     return results
 
 
